@@ -528,6 +528,9 @@ class FnTr:
                 return self.wrapv(t, ("app", zop, [g, gb])), t
             if name == "wrapping_neg":
                 return self.wrapv(t, ("app", "Z.opp", [g])), t
+            if name == "saturating_sub" and t[0] == "u":
+                gb, tb = self.expr(args[0], env, t)
+                return ("app", "Z.max", [z(0), ("app", "Z.sub", [g, gb])]), t
             if name in ("overflowing_add", "overflowing_sub") and t[0] == "u":
                 gb, tb = self.expr(args[0], env, t)
                 return ("app", "ovf_add" if name.endswith("add") else "ovf_sub", [z(n), g, gb]), ("tuple", [t, BOOL])
